@@ -31,13 +31,15 @@ impl Drop for PullSocket {
 #[async_trait]
 impl Socket for PullSocket {
     fn with_options(options: SocketOptions) -> Self {
-        let fair_queue = FairQueue::new(true);
+        let mut fair_queue = FairQueue::new(true);
+        let backend = Arc::new(GenericSocketBackend::with_options(
+            Some(fair_queue.inner()),
+            SocketType::PULL,
+            options,
+        ));
+        crate::backend::forget_ended_peers(&mut fair_queue, &backend);
         Self {
-            backend: Arc::new(GenericSocketBackend::with_options(
-                Some(fair_queue.inner()),
-                SocketType::PULL,
-                options,
-            )),
+            backend,
             fair_queue,
             binds: HashMap::new(),
         }
